@@ -182,10 +182,13 @@ theorem latest_isSome (acc : List (String × Val)) (k : String) : (latest acc k)
 
 theorem specEnv_eq (fields : Fields) (tags : Tags) (acc : List (String × Val)) (r : String) :
     specEnv fields tags acc r =
-      if collides fields tags r then none
-      else some (match baseVal fields tags r with | some v => v | none => (latest acc r).getD .missing) := by
-  unfold specEnv collides baseVal latest
-  cases aget fields r <;> cases aget tags r <;> simp
+      match latest acc r with
+      | some v => some v
+      | none => if collides fields tags r then none else some ((baseVal fields tags r).getD .missing) := by
+  unfold specEnv collides baseVal
+  cases latest acc r with
+  | some v => rfl
+  | none => cases aget fields r <;> cases aget tags r <;> simp
 
 /-- What the threaded scope has to do with the results so far: a name that is a result is bound to the LATEST result of
 that name; any other name is unbound unless some expression referenced it, in which case it holds the field, else the tag,
@@ -194,20 +197,43 @@ structure EvInv (fields : Fields) (tags : Tags) (sc : Scope) (acc : List (String
   res : ∀ k v, latest acc k = some v → aget sc k = some v
   other : ∀ k, latest acc k = none → aget sc k = if k ∈ seen then some ((baseVal fields tags k).getD .missing) else none
 
+/-- the references of an expression that are not results yet -/
+def freshRefs (e : Expr) (acc : List (String × Val)) : List String := e.refs.filter (fun r => !(akeys acc).contains r)
+
+theorem mem_freshRefs (e : Expr) (acc : List (String × Val)) (r : String) :
+    r ∈ freshRefs e acc ↔ r ∈ e.refs ∧ latest acc r = none := by
+  unfold freshRefs
+  rw [List.mem_filter]
+  have : (!(akeys acc).contains r) = true ↔ latest acc r = none := by
+    rw [← latest_isSome]; cases latest acc r <;> simp
+  rw [this]
+
 theorem specEvalResults_cons (fields : Fields) (tags : Tags) (e : Expr) (es : List Expr) (a : String) (as : List String)
     (acc : List (String × Val)) :
     specEvalResults fields tags (e :: es) (a :: as) acc =
-      if (e.refs.any (fun r => collides fields tags r)) then none else
+      if ((freshRefs e acc).any (fun r => collides fields tags r)) then none else
       match typeOf (tabulate e.refs (specEnv fields tags acc)) e, eval (tabulate e.refs (specEnv fields tags acc)) e with
       | some _, some v => specEvalResults fields tags es as (acc ++ [(a, v)])
       | _, _ => none := by
   simp only [specEvalResults]
-  have h1 : (e.refs.map (fun r => (r, specEnv fields tags acc r))).any (fun kv => kv.2.isNone) = e.refs.any (fun r => collides fields tags r) := by
+  have h1 : (e.refs.map (fun r => (r, specEnv fields tags acc r))).any (fun kv => kv.2.isNone) = (freshRefs e acc).any (fun r => collides fields tags r) := by
     rw [List.any_map]
-    congr 1
-    funext r
-    simp only [Function.comp, specEnv_eq]
-    by_cases hc : collides fields tags r = true <;> simp [hc]
+    apply Bool.eq_iff_iff.mpr
+    simp only [List.any_eq_true, Function.comp]
+    constructor
+    · rintro ⟨r, hr, hn⟩
+      rw [specEnv_eq] at hn
+      cases hl : latest acc r with
+      | some v => simp [hl] at hn
+      | none =>
+        refine ⟨r, (mem_freshRefs e acc r).mpr ⟨hr, hl⟩, ?_⟩
+        simp only [hl] at hn
+        by_cases hc : collides fields tags r = true
+        · exact hc
+        · simp [hc] at hn
+    · rintro ⟨r, hr, hc⟩
+      obtain ⟨hr1, hl⟩ := (mem_freshRefs e acc r).mp hr
+      exact ⟨r, hr1, by rw [specEnv_eq, hl]; simp [hc]⟩
   have h2 : (e.refs.map (fun r => (r, specEnv fields tags acc r))).filterMap (fun kv => kv.2.map (fun v => (kv.1, v))) =
       tabulate e.refs (specEnv fields tags acc) := by
     unfold tabulate
@@ -216,81 +242,73 @@ theorem specEvalResults_cons (fields : Fields) (tags : Tags) (e : Expr) (es : Li
   rw [h1, h2]
   rfl
 
-theorem evalLoop_cons (fields : Fields) (tags : Tags) (e : Expr) (es : List Expr) (a : String) (as : List String) (sc : Scope) :
-    evalLoop (e :: es) (a :: as) sc fields tags =
-      match fillScope sc e.refs fields tags with
+theorem evalLoop_cons (fields : Fields) (tags : Tags) (e : Expr) (es : List Expr) (a : String) (as earlier : List String) (sc : Scope) :
+    evalLoop (e :: es) (a :: as) earlier sc fields tags =
+      match fillScope sc (e.refs.filter (fun r => !earlier.contains r)) fields tags with
       | none => none
       | some sc1 =>
         match typeOf sc1 e, eval sc1 e with
-        | some _, some v => evalLoop es as (aset sc1 a v) fields tags
+        | some _, some v => evalLoop es as (earlier ++ [a]) (aset sc1 a v) fields tags
         | _, _ => none := by
   simp only [evalLoop]
-  cases fillScope sc e.refs fields tags with
+  cases fillScope sc (e.refs.filter (fun r => !earlier.contains r)) fields tags with
   | none => rfl
   | some sc1 =>
     simp only
     cases typeOf sc1 e <;> cases eval sc1 e <;> rfl
 
-theorem shadow_cons (fields : Fields) (tags : Tags) (e : Expr) (es : List Expr) (a : String) (as earlier : List String) :
-    evalShadowed.go fields tags (e :: es) (a :: as) earlier =
-      (e.refs.any (fun r => earlier.contains r && ((aget fields r).isSome || (aget tags r).isSome)) ||
-        evalShadowed.go fields tags es as (earlier ++ [a])) := by
-  simp [evalShadowed.go]
-
-theorem baseVal_none_iff (fields : Fields) (tags : Tags) (r : String) :
-    baseVal fields tags r = none ↔ ((aget fields r).isSome || (aget tags r).isSome) = false := by
-  unfold baseVal
-  cases aget fields r <;> cases aget tags r <;> simp
-
-/-- One turn of the expression loop. -/
+/-- The expression loop: the threaded scope and the documented results go together. -/
 theorem evalLoop_spec (fields : Fields) (tags : Tags) (es : List Expr) :
     ∀ (as : List String) (sc : Scope) (acc : List (String × Val)) (seen : List String),
-      EvInv fields tags sc acc seen → evalShadowed.go fields tags es as (akeys acc) = false →
-      match evalLoop es as sc fields tags, specEvalResults fields tags es as acc with
+      EvInv fields tags sc acc seen →
+      match evalLoop es as (akeys acc) sc fields tags, specEvalResults fields tags es as acc with
       | none, none => True
       | some sc', some res => EvInv fields tags sc' res (seen ++ es.flatMap Expr.refs) ∧ akeys res = akeys acc ++ as.take es.length
       | _, _ => False := by
   induction es with
   | nil =>
-    intro as sc acc seen hinv _
+    intro as sc acc seen hinv
     simp only [evalLoop, specEvalResults, List.flatMap_nil, List.append_nil, List.length_nil, List.take_zero]
     exact ⟨hinv, by simp⟩
   | cons e es ih =>
-    intro as sc acc seen hinv hsh
+    intro as sc acc seen hinv
     cases as with
     | nil => simp [evalLoop, specEvalResults]
     | cons a as =>
-      rw [shadow_cons, Bool.or_eq_false_iff] at hsh
       rw [evalLoop_cons, specEvalResults_cons]
-      by_cases hcol : e.refs.any (fun r => collides fields tags r) = true
-      · -- a field/tag collision on a reference: both fail
-        have : fillScope sc e.refs fields tags = none := by
+      have hfr : e.refs.filter (fun r => !(akeys acc).contains r) = freshRefs e acc := rfl
+      rw [hfr]
+      by_cases hcol : (freshRefs e acc).any (fun r => collides fields tags r) = true
+      · have : fillScope sc (freshRefs e acc) fields tags = none := by
           rw [fillScope_none]
           simpa using hcol
         simp [this, hcol]
-      · have hsome : ∃ sc1, fillScope sc e.refs fields tags = some sc1 := by
-          cases hf : fillScope sc e.refs fields tags with
+      · have hsome : ∃ sc1, fillScope sc (freshRefs e acc) fields tags = some sc1 := by
+          cases hf : fillScope sc (freshRefs e acc) fields tags with
           | none =>
             rw [fillScope_none] at hf
             exact absurd (by simpa using hf) hcol
           | some sc1 => exact ⟨sc1, rfl⟩
         obtain ⟨sc1, hfill⟩ := hsome
-        have hlook := fillScope_lookup fields tags e.refs sc sc1 hfill
+        have hlook := fillScope_lookup fields tags (freshRefs e acc) sc sc1 hfill
         simp only [hfill, hcol, Bool.false_eq_true, if_false]
-        -- the filled scope agrees with the documented environment on every reference
         have hagree : ∀ r ∈ e.refs, aget sc1 r = aget (tabulate e.refs (specEnv fields tags acc)) r := by
           intro r hr
-          rw [aget_tabulate, hlook r]
-          have hnc : ¬ collides fields tags r = true := by
-            intro hc; apply hcol; simp only [List.any_eq_true]; exact ⟨r, hr, hc⟩
-          simp only [hr, if_true, specEnv_eq, hnc, Bool.false_eq_true, if_false]
-          cases hb : baseVal fields tags r with
-          | some v => rfl
+          rw [aget_tabulate, hlook r, specEnv_eq]
+          simp only [hr, if_true]
+          cases hl : latest acc r with
+          | some v =>
+            have hnf : r ∉ freshRefs e acc := by rw [mem_freshRefs]; simp [hl]
+            simp [hnf, hinv.res r v hl]
           | none =>
-            simp only
-            cases hl : latest acc r with
-            | some v => simp [hinv.res r v hl]
+            have hf : r ∈ freshRefs e acc := (mem_freshRefs e acc r).mpr ⟨hr, hl⟩
+            have hnc : ¬ collides fields tags r = true := by
+              intro hc; apply hcol; simp only [List.any_eq_true]; exact ⟨r, hf, hc⟩
+            simp only [hf, if_true, hnc, Bool.false_eq_true, if_false]
+            cases hb : baseVal fields tags r with
+            | some v => rfl
             | none =>
+              simp only
               rw [hinv.other r hl]
               by_cases hs : r ∈ seen <;> simp [hs, hb]
         have hc := eval_congr sc1 (tabulate e.refs (specEnv fields tags acc)) e hagree
@@ -302,7 +320,6 @@ theorem evalLoop_spec (fields : Fields) (tags : Tags) (es : List Expr) :
           | none => simp
           | some v =>
             simp only
-            -- the invariant after binding the result
             have hinv' : EvInv fields tags (aset sc1 a v) (acc ++ [(a, v)]) (seen ++ e.refs) := by
               constructor
               · intro k w hk
@@ -314,18 +331,8 @@ theorem evalLoop_spec (fields : Fields) (tags : Tags) (es : List Expr) :
                   simp only [hak, if_false] at hk
                   simp only [hka, if_false]
                   rw [hlook k]
-                  by_cases hkr : k ∈ e.refs
-                  · -- an earlier result referenced now: it is not shadowed, so fill kept it
-                    have hcont : (akeys acc).contains k = true := by rw [← latest_isSome, hk]; rfl
-                    have hns : ((aget fields k).isSome || (aget tags k).isSome) = false := by
-                      have := hsh.1
-                      rw [List.any_eq_false] at this
-                      have h3 := this k hkr
-                      rw [hcont, Bool.true_and] at h3
-                      simpa using h3
-                    have hb : baseVal fields tags k = none := (baseVal_none_iff fields tags k).mpr hns
-                    simp [hkr, hb, hinv.res k w hk]
-                  · simp [hkr, hinv.res k w hk]
+                  have hnf : k ∉ freshRefs e acc := by rw [mem_freshRefs]; simp [hk]
+                  simp [hnf, hinv.res k w hk]
               · intro k hk
                 rw [latest_snoc] at hk
                 by_cases hak : a = k
@@ -336,14 +343,16 @@ theorem evalLoop_spec (fields : Fields) (tags : Tags) (es : List Expr) :
                   simp only [hka, if_false]
                   rw [hlook k, hinv.other k hk]
                   by_cases hkr : k ∈ e.refs
-                  · cases hb : baseVal fields tags k with
-                    | some x => simp [hkr, hb]
-                    | none => by_cases hs : k ∈ seen <;> simp [hkr, hb, hs]
-                  · by_cases hs : k ∈ seen <;> simp [hkr, hs]
-            have hsh' : evalShadowed.go fields tags es as (akeys (acc ++ [(a, v)])) = false := by
-              simpa [akeys] using hsh.2
-            have := ih as (aset sc1 a v) (acc ++ [(a, v)]) (seen ++ e.refs) hinv' hsh'
-            cases h1 : evalLoop es as (aset sc1 a v) fields tags with
+                  · have hf : k ∈ freshRefs e acc := (mem_freshRefs e acc k).mpr ⟨hkr, hk⟩
+                    cases hb : baseVal fields tags k with
+                    | some x => simp [hkr, hf, hb]
+                    | none => by_cases hs : k ∈ seen <;> simp [hkr, hf, hb, hs]
+                  · have hf : k ∉ freshRefs e acc := by rw [mem_freshRefs]; simp [hkr]
+                    by_cases hs : k ∈ seen <;> simp [hkr, hf, hs]
+            have hk2 : akeys acc ++ [a] = akeys (acc ++ [(a, v)]) := by simp [akeys]
+            rw [hk2]
+            have := ih as (aset sc1 a v) (acc ++ [(a, v)]) (seen ++ e.refs) hinv'
+            cases h1 : evalLoop es as (akeys (acc ++ [(a, v)])) (aset sc1 a v) fields tags with
             | none =>
               cases h2 : specEvalResults fields tags es as (acc ++ [(a, v)]) with
               | none => simp
@@ -603,19 +612,20 @@ theorem evalFields_spec (c : EvalCfg) (fields : Fields) (tags : Tags) (sc : Scop
         · rw [if_neg ht, if_neg ht, hv, hl]; rfl
       · rw [if_neg hk, if_neg hk]; rfl
 
-/-- **eval computes its documented output** whenever no result is shadowed — for configurations the pipeline accepts
-(as many names as expressions, `.tags()` ⊆ `.as()`). -/
+/-- **eval computes its documented output** — for configurations the pipeline accepts (as many names as expressions,
+`.tags()` ⊆ `.as()`). -/
 theorem evalFT_spec (c : EvalCfg) (fields : Fields) (tags : Tags)
-    (hlen : c.as.length = c.exprs.length) (htags : ∀ t ∈ c.tags, t ∈ c.as)
-    (hsh : evalShadowed c fields tags = false) :
+    (hlen : c.as.length = c.exprs.length) (htags : ∀ t ∈ c.tags, t ∈ c.as) :
     match evalFT c fields tags, specEvalFT c fields tags with
     | none, none => True
     | some (f, t), some (f', t') => mapEqB f f' = true ∧ mapEqB t t' = true
     | _, _ => False := by
   have hinv0 : EvInv fields tags [] [] [] := ⟨by intro k v h; simp [latest] at h, by intro k _; simp [aget]⟩
-  have hloop := evalLoop_spec fields tags c.exprs c.as [] [] [] hinv0 (by simpa [evalShadowed, akeys] using hsh)
+  have hloop := evalLoop_spec fields tags c.exprs c.as [] [] [] hinv0
+  have hk0 : akeys ([] : List (String × Val)) = [] := rfl
+  rw [hk0] at hloop
   unfold evalFT specEvalFT
-  cases h1 : evalLoop c.exprs c.as [] fields tags with
+  cases h1 : evalLoop c.exprs c.as [] [] fields tags with
   | none =>
     cases h2 : specEvalResults fields tags c.exprs c.as [] with
     | none => simp
